@@ -117,8 +117,17 @@ def read_bars(ax):
     return bars
 
 
+def _has_number(text, n):
+    import re
+    return re.search(r"(?<![0-9])%d(?![0-9])" % n, text) is not None
+
+
 def check_chart(ctx, schedule, ax, want, xlim, labels, where, machine_labels=None):
-    """want: list of (machine, start, end, job)."""
+    """want: list of (machine, start, end, job).  Geometry is judged relative to the chart's own
+    row ticks (bar heights, offsets and the wording of default labels are the library's choice):
+    one bar per scheduled operation, from its start to its end, in the row whose tick is its
+    machine's, in the colour the legend shows for its job."""
+    from collections import Counter
     bars = read_bars(ax)
     ctx.count("charts_checked")
     ctx.count("bars_checked", len(bars))
@@ -127,38 +136,74 @@ def check_chart(ctx, schedule, ax, want, xlim, labels, where, machine_labels=Non
     handles = list(leg.legend_handles) if leg is not None else []
     texts = [t.get_text() for t in leg.get_texts()] if leg is not None else []
     jobs_present = sorted({j for _, _, _, j in want})
-    want_labels = [labels[j] if labels else f"Job {j}" for j in jobs_present]
-    if texts != want_labels:
-        ctx.violation("c20_legend_entries", dict(w, got=texts, want=want_labels))
+    if len(texts) != len(jobs_present) or len(handles) != len(jobs_present):
+        ctx.violation("c20_legend_entries", dict(w, got=texts, want_jobs=jobs_present))
         return
-    # one legend entry per scheduled job, in job order (two jobs may carry the same label text)
-    colour_of_job = {j: tuple(round(float(c), 6) for c in h.get_facecolor())
-                     for j, h in zip(jobs_present, handles)}
+    # which legend entry stands for which job
+    if labels:
+        want_labels = [labels[j] for j in jobs_present]
+        if sorted(texts) != sorted(want_labels):
+            ctx.violation("c20_legend_entries", dict(w, got=texts, want=want_labels))
+            return
+        if len(set(want_labels)) == len(want_labels):
+            entry_of_job = {j: texts.index(labels[j]) for j in jobs_present}
+        else:
+            if texts != want_labels:     # repeated label texts: entries are taken in job order
+                ctx.violation("c20_legend_entries", dict(w, got=texts, want=want_labels))
+                return
+            entry_of_job = {j: i for i, j in enumerate(jobs_present)}
+    else:
+        entry_of_job = {}
+        for j in jobs_present:
+            hit = [i for i, t in enumerate(texts) if _has_number(t, j)]
+            if len(hit) != 1:
+                ctx.violation("c20_legend_entries",
+                              dict(w, got=texts, note=f"no unique default entry naming job {j}"))
+                return
+            entry_of_job[j] = hit[0]
+        if len(set(entry_of_job.values())) != len(jobs_present):
+            ctx.violation("c20_legend_entries", dict(w, got=texts, want_jobs=jobs_present))
+            return
+    colour_of_job = {j: tuple(round(float(c), 6) for c in handles[i].get_facecolor())
+                     for j, i in entry_of_job.items()}
     if len(set(colour_of_job.values())) != len(colour_of_job):
         ctx.violation("c20_legend_colours_not_one_to_one", dict(w, colours=list(colour_of_job.values())))
-    exp = sorted((1.0 + 10 * m, 10.0 + 10 * m, float(s), float(e), colour_of_job[j])
-                 for m, s, e, j in want)
-    if sorted(bars) != exp:
+    # rows
+    nm = len(schedule.schedule)
+    yt = [float(y) for y in ax.get_yticks()]
+    row_labels = [t.get_text() for t in ax.get_yticklabels()]
+    if len(yt) != nm or len(set(yt)) != nm:
+        ctx.violation("c20_machine_axis", dict(w, yticks=yt, machines=nm))
+        return
+    if machine_labels is not None:
+        if row_labels != machine_labels:
+            ctx.violation("c20_machine_row_labels", dict(w, got=row_labels[:16], want=machine_labels[:16]))
+    elif any(not _has_number(t, i) for i, t in enumerate(row_labels)) or len(set(row_labels)) != nm:
+        ctx.violation("c20_machine_row_labels",
+                      dict(w, got=row_labels[:16], want="row i labelled with machine id i"))
+    got = Counter()
+    for y0, y1, x0, x1, fc in bars:
+        rows = [i for i, t in enumerate(yt) if y0 <= t <= y1]
+        if len(rows) != 1 or not y1 > y0:
+            ctx.violation("c20_bar_not_in_exactly_one_machine_row",
+                          dict(w, bar=[y0, y1, x0, x1], row_ticks=yt[:16]))
+            return
+        got[(rows[0], x0, x1, fc)] += 1
+    exp = Counter((m, float(s), float(e), colour_of_job[j]) for m, s, e, j in want)
+    if got != exp:
         ctx.violation("c20_bars_differ_from_schedule",
-                      dict(w, got=[b[:4] for b in sorted(bars)][:12], want=[b[:4] for b in exp][:12],
-                           colours_match=sorted(b[4] for b in bars) == sorted(b[4] for b in exp)))
+                      dict(w, got=sorted(k[:3] for k in got.elements())[:12],
+                           want=sorted(k[:3] for k in exp.elements())[:12],
+                           colours_match=sorted(k[3] for k in got.elements()) == sorted(k[3] for k in exp.elements())))
+    lo, hi = ax.get_ylim()
+    if not all(min(lo, hi) <= b[0] and b[1] <= max(lo, hi) for b in bars):
+        ctx.violation("c20_machine_axis", dict(w, ylim=[lo, hi], note="a bar lies outside the y-limits"))
     mk = max((e for _, _, e, _ in want), default=0)
     limit = xlim if xlim is not None else mk
     if limit > 0:
         xl = ax.get_xlim()
-        ticks = list(ax.get_xticks())
-        if tuple(map(float, xl)) != (0.0, float(limit)) or not ticks or float(ticks[-1]) != float(limit) \
-                or ticks != sorted(ticks) or float(ticks[0]) != 0.0:
-            ctx.violation("c20_time_axis", dict(w, xlim=list(xl), last_ticks=ticks[-3:], want_limit=limit))
-    nm = len(schedule.schedule)
-    # the row of machine i carries the label of machine i (its id unless labels were given)
-    row_labels = [t.get_text() for t in ax.get_yticklabels()]
-    if row_labels != (machine_labels or [str(i) for i in range(nm)]):
-        ctx.violation("c20_machine_row_labels", dict(w, got=row_labels[:16],
-                                                     want=(machine_labels or [str(i) for i in range(nm)])[:16]))
-    yt = [float(y) for y in ax.get_yticks()]
-    if yt != [1.0 + 5 + 10 * i for i in range(nm)] or tuple(ax.get_ylim()) != (0.0, 1.0 + 10 * nm):
-        ctx.violation("c20_machine_axis", dict(w, yticks=yt, ylim=list(ax.get_ylim())))
+        if float(xl[1]) != float(limit) or float(xl[0]) > 0.0:
+            ctx.violation("c20_time_axis", dict(w, xlim=list(xl), want_limit=limit))
 
 
 def run_chart(ctx, case):
